@@ -60,4 +60,55 @@ theorem rows_reachable (r : Row) (hr : r ∈ allRows) :
 /-- non-vacuity: the table is not empty and contains copies made by the loop -/
 example : 1000 < allRows.length ∧ 0 < copies.length := by decide +kernel
 
+/-- **Reported sizes are 4 or 8 and never exceed the buffer**, for every byte string. -/
+theorem decode_size (cdna3 : Bool) (buf : List Nat) (i : Inst)
+    (h : decode cdna3 buf = .ok i) : (i.size = 4 ∨ i.size = 8) ∧ i.size ≤ buf.length := by
+  unfold decode decodeWith at h
+  by_cases hl : buf.length < 4
+  · simp [hl] at h
+  · simp only [hl, if_false] at h
+    rcases decodeCore_size _ _ _ _ _ h with h4 | ⟨h8, hs⟩
+    · exact ⟨Or.inl h4, by omega⟩
+    · refine ⟨Or.inr h8, ?_⟩
+      by_cases h8' : buf.length ≥ 8
+      · omega
+      · simp [h8'] at hs
+/-- **Bytes beyond the reported length never influence the result**: if a buffer decodes to an
+    instruction of size `s`, then its first `s` bytes followed by ANY other bytes (or none) decode
+    to the same instruction. -/
+theorem decode_prefix (cdna3 : Bool) (buf : List Nat) (i : Inst)
+    (h : decode cdna3 buf = .ok i) (t : List Nat) : decode cdna3 (buf.take i.size ++ t) = .ok i := by
+  have hsz := decode_size cdna3 buf i h
+  unfold decode decodeWith at h ⊢
+  by_cases hl : buf.length < 4
+  · simp [hl] at h
+  · simp only [hl, if_false] at h
+    rcases decodeCore_size _ _ _ _ _ h with h4 | ⟨h8, hs⟩
+    · have hlen : ¬ (buf.take i.size ++ t).length < 4 := by
+        simp [List.length_append, List.length_take]; omega
+      simp only [hlen, if_false]
+      rw [h4, le32_take_append buf t 4 0 (by omega) (by omega)]
+      exact decodeCore_indep4 _ _ _ _ _ i h h4
+    · have hb8 : buf.length ≥ 8 := by
+        by_cases h8' : buf.length ≥ 8
+        · exact h8'
+        · simp [h8'] at hs
+      have hlen : ¬ (buf.take i.size ++ t).length < 4 := by
+        simp [List.length_append, List.length_take]; omega
+      have hlen8 : (buf.take i.size ++ t).length ≥ 8 := by
+        simp [List.length_append, List.length_take]; omega
+      simp only [hlen, if_false, hlen8, if_true]
+      simp only [hb8, if_true] at h
+      rw [h8, le32_take_append buf t 8 0 (by omega) hb8, le32_take_append buf t 8 4 (by omega) hb8]
+      exact h
+
+/-- non-vacuity: `s_mov_b32 s0, 0xdeadbeef` followed by junk decodes with size 8, and
+    `s_endpgm` with size 4 -/
+example : (match decode false [0xff, 0x00, 0x80, 0xbe, 0xef, 0xbe, 0xad, 0xde, 1, 2, 3] with
+           | .ok i => (i.opcode, i.size, i.src0) | _ => (99, 0, none)) = (0, 8, some (.lit 255 0xdeadbeef)) := by
+  decide +kernel
+example : (match decode false [0x00, 0x00, 0x81, 0xbf] with
+           | .ok i => (i.opcode, i.size) | _ => (99, 0)) = (1, 4) := by
+  decide +kernel
+
 end C04
